@@ -143,8 +143,45 @@ def inferStyle (A : Acr) (rest : Bytes) : Option Style :=
     else if contains rest 95 && !contains rest 45 && !contains rest 46 then some .snake
     else none
 
-/-- `find_compound_variants(identifier, old_pattern, new_pattern, styles)`: at most one match -/
-def findCompound (A : Acr) (ident old new : Bytes) (styles : List Style) : Option CMatch :=
+/-- `matched_windows`: the windows of the ORIGINAL token list replaced by the splice loop, as (start, end) token
+    indices (`original_pos` bookkeeping of the loop; same match decisions as `spliceAll`) -/
+def matchedWindows (pat : List Bytes) : Nat → Nat → List Bytes → List (Nat × Nat)
+  | _, _, [] => []
+  | skip + 1, idx, _ :: ts => matchedWindows pat skip (idx + 1) ts
+  | 0, idx, t :: ts =>
+    if tokensMatch ((t :: ts).take pat.length) pat then (idx, idx + pat.length) :: matchedWindows pat (pat.length - 1) (idx + 1) ts
+    else matchedWindows pat 0 (idx + 1) ts
+
+def insideWindow (windows : List (Nat × Nat)) (idx : Nat) : Bool :=
+  windows.any (fun w => decide (w.1 < idx) && decide (idx < w.2))
+
+/-- the token walk of `untouched_text_survives_rejoin`: `s` is the text from the cursor on; every token starts at
+    the next alphanumeric byte; the gap in front of the first token must be empty, every other gap must be the join
+    separator unless both neighbours lie in one matched window; at most one trailing delimiter -/
+def gapsOk (sep : Bytes) (windows : List (Nat × Nat)) : Nat → Bytes → List Bytes → Bool
+  | _, s, [] => s == [] || s == [95] || s == [45] || s == [46]
+  | idx, s, t :: ts =>
+    let gap := s.takeWhile (fun c => !isAlnum c)
+    let s' := s.dropWhile (fun c => !isAlnum c)
+    (if idx == 0 then gap.isEmpty else (insideWindow windows idx || gap == sep)) &&
+      gapsOk sep windows (idx + 1) (s'.drop t.length) ts
+
+/-- `untouched_text_survives_rejoin(identifier_without_prefix, tokens, matched_windows, style)` -/
+def survivesRejoin (rest : Bytes) (toks : List Bytes) (windows : List (Nat × Nat)) (style : Style) : Bool :=
+  let hasU := contains rest 95
+  let hasH := contains rest 45
+  if hasU && hasH then true
+  else if hasH then gapsOk [45] windows 0 rest toks
+  else if hasU then gapsOk [95] windows 0 rest toks
+  else if contains rest 46 then gapsOk [46] windows 0 rest toks
+  else if contains rest 32 then gapsOk [32] windows 0 rest toks
+  else match style with
+    | .pascal | .camel => gapsOk [] windows 0 rest toks
+    | _ => true
+
+/-- `find_compound_variants(identifier, old_pattern, new_pattern, styles)`: at most one match.
+    `guard = true` is the code as it is (with the re-join guard of commit 70a22d6), `guard = false` the code before it. -/
+def findCompoundG (A : Acr) (guard : Bool) (ident old new : Bytes) (styles : List Style) : Option CMatch :=
   let pre := (extractPrefix ident).1
   let rest := (extractPrefix ident).2
   let idToks := parse A rest
@@ -161,7 +198,15 @@ def findCompound (A : Acr) (ident old new : Bytes) (styles : List Style) : Optio
   | none => none
   | some style =>
     if !styles.contains style then none else
+    if guard && !survivesRejoin rest idToks (matchedWindows oldToks 0 0 idToks) style then none else
     some ⟨ident, pre ++ restoreTrailing rest (joinTokens A rest r.1 style), style⟩
+
+def findCompound (A : Acr) (ident old new : Bytes) (styles : List Style) : Option CMatch :=
+  findCompoundG A true ident old new styles
+
+/-- the matcher before commit 70a22d6 (kept for the before-fix witnesses) -/
+def findCompoundOld (A : Acr) (ident old new : Bytes) (styles : List Style) : Option CMatch :=
+  findCompoundG A false ident old new styles
 
 -- pattern.rs::is_boundary -------------------------------------------------------------------------
 
